@@ -457,11 +457,19 @@ type File struct {
 	writable bool
 }
 
-func (f *File) Name() string { return f.name }
+// ErrInvalid is what *os.File methods return on a nil receiver.
+var ErrInvalid = fs.ErrInvalid
+
+func (f *File) Name() string {
+	if f == nil {
+		panic("invalid memory address or nil pointer dereference") // as (*os.File)(nil).Name()
+	}
+	return f.name
+}
 
 func (f *File) Close() error {
 	if f == nil {
-		return errors.New("invalid argument")
+		return ErrInvalid
 	}
 	if f.closed {
 		return pathErr("close", f.name, ErrClosed)
@@ -471,6 +479,9 @@ func (f *File) Close() error {
 }
 
 func (f *File) Stat() (fs.FileInfo, error) {
+	if f == nil {
+		return nil, ErrInvalid
+	}
 	if f.closed {
 		return nil, pathErr("stat", f.name, ErrClosed)
 	}
@@ -481,6 +492,9 @@ func (f *File) Stat() (fs.FileInfo, error) {
 }
 
 func (f *File) Write(b []byte) (int, error) {
+	if f == nil {
+		return 0, ErrInvalid
+	}
 	if f.closed {
 		return 0, pathErr("write", f.name, ErrClosed)
 	}
@@ -518,6 +532,9 @@ func (f *File) put(b []byte) {
 }
 
 func (f *File) Read(b []byte) (int, error) {
+	if f == nil {
+		return 0, ErrInvalid
+	}
 	if f.closed {
 		return 0, pathErr("read", f.name, ErrClosed)
 	}
@@ -539,6 +556,9 @@ func (f *File) Read(b []byte) (int, error) {
 }
 
 func (f *File) Seek(offset int64, whence int) (int64, error) {
+	if f == nil {
+		return 0, ErrInvalid
+	}
 	if f.closed {
 		return 0, pathErr("seek", f.name, ErrClosed)
 	}
